@@ -221,6 +221,20 @@ def rule_all_outputs(ctx: Ctx) -> None:
             (f"UNDECIDED: MapSpec.rename refuses `{' and '.join(direct[0]['conds'])[:80]}`, which this rule cannot classify" if not collide else "") +
             f"MapSpec.rename refuses `{' and '.join(direct[0]['conds'])[:90]}`: renames are simultaneous, a new name may equal a name that is renamed away in the same call (a swap `{{a: b, b: a}}` or a chain) - "
             "a well-formed spec and a renaming with a well-formed result is rejected", key="rename-total")
+    # ... and it is applied in ONE pass over the current names: a loop over the entries of `renames` that feeds the spec renamed so
+    # far into the next entry applies them one after the other - a chain {a: b, b: c} sends `a` to `c`, a swap collapses both names
+    rprm = [p_ for p_ in rn.param_names() if p_ != "self"][:1]
+    seq = []
+    for f_ in Scope(ctx, rn).funcs:
+        for lp in [lp for lp in walk_no_nested(f_.node) if isinstance(lp, ast.For) and rprm and re.fullmatch(rf"{re.escape(rprm[0])}(\.items\(\)|\.keys\(\))?", norm(Defs(f_).resolve(lp.iter)))]:
+            for a_ in [a_ for b_ in lp.body for a_ in ast.walk(b_) if isinstance(a_, ast.Assign)]:
+                for t in [t for t in a_.targets if isinstance(t, ast.Name)]:
+                    if any(isinstance(x, ast.Name) and x.id == t.id for x in ast.walk(a_.value)) and not isinstance(a_.value, (ast.Name, ast.Constant)):
+                        seq.append(a_)
+    one_pass = any(isinstance(c, ast.Call) and isinstance(c.func, ast.Attribute) and c.func.attr == "get" and rprm and norm(c.func.value) == rprm[0] and len(c.args) == 2 for f_ in Scope(ctx, rn).funcs for c in ast.walk(f_.node))
+    ctx.tri("3-all-outputs", rn, seq[0] if seq else rn.node, one_pass and not seq, bool(seq), "every current name is looked up once in `renames` (simultaneous renaming)",
+            f"`{norm(seq[0])[:60] if seq else ''}` inside a loop over `{rprm[0] if rprm else ''}` renames the spec renamed so far: the entries are applied one after the other, so a chain {{a: b, b: c}} "
+            "renames `a` to `c` and a swap {a: b, b: a} gives both arrays the same name - not the simultaneous renaming the rest of the package (PipeFunc.renames) performs", "how the renames are applied was not recognised", key="rename-simultaneous")
     # __post_init__ validates EVERY spec: an early `return` ahead of rejections exempts a class of specs (input-less ones) from the
     # checks behind it - also from those that only concern the outputs
     for cls_, post_ in ((ms, post), (asp, apost)):
